@@ -502,6 +502,7 @@ class _ExprInliner(ast.NodeTransformer):
                     return ast.copy_location(copy.deepcopy(mapping[n.id]), n)
                 return n
         new = Sub().visit(copy.deepcopy(expr))
+        _INLINED_DEFS.add(id(callee))
         if any(isinstance(v_, ast.Constant) for v_ in mapping.values()):
             new = _ExprFolder().visit(new)      # a literal argument decides what the helper asks about it
         ast.copy_location(new, node)
@@ -537,6 +538,7 @@ class _PropertyInliner(ast.NodeTransformer):
                     return ast.copy_location(copy.deepcopy(recv), n)
                 return n
         new = Sub().visit(copy.deepcopy(expr))
+        _INLINED_DEFS.add(id(d))
         ast.copy_location(new, node)
         ast.fix_missing_locations(new)
         self.count += 1
@@ -710,6 +712,7 @@ def _rewrite_withs(body: List[ast.stmt], find_cm_func, find_cm_class) -> bool:
 
 
 def _expand_generator_cm(gen: ast.FunctionDef, call: ast.Call, with_body: List[ast.stmt], target) -> Optional[List[ast.stmt]]:
+    _INLINED_DEFS.add(id(gen))
     yields = [n for n in ast.walk(gen) if isinstance(n, (ast.Yield, ast.YieldFrom))]
     if len(yields) != 1 or isinstance(yields[0], ast.YieldFrom):
         return None
@@ -764,6 +767,7 @@ def _expand_generator_cm(gen: ast.FunctionDef, call: ast.Call, with_body: List[a
 
 
 def _expand_class_cm(klass: ast.ClassDef, call: ast.Call, with_body: List[ast.stmt]) -> Optional[List[ast.stmt]]:
+    _INLINED_DEFS.add(id(klass))
     meths = {n.name: n for n in klass.body if isinstance(n, ast.FunctionDef)}
     init, enter, exit_ = meths.get("__init__"), meths.get("__enter__"), meths.get("__exit__")
     if enter is None or exit_ is None or set(meths) - {"__init__", "__enter__", "__exit__"}:
@@ -1441,6 +1445,7 @@ def _rewrite_generator_loops(body: List[ast.stmt], find_gen) -> bool:
 
 
 def _expand_generator_for(gen, call, skip_self, self_expr, target, loop_body) -> Optional[List[ast.stmt]]:
+    _INLINED_DEFS.add(id(gen))
     _Counter.n += 1
     prefix = "__inl%d_" % _Counter.n
     binding = _bind_args(gen, call, skip_self, prefix)
@@ -1693,10 +1698,12 @@ def _split_flag_ifexp(fn: ast.FunctionDef) -> bool:
             if isinstance(st, (ast.Expr, ast.Return)) and isinstance(getattr(st, "value", None), ast.Call) and not st.value.keywords:
                 c_ = st.value
                 cond = [a_ for a_ in c_.args if isinstance(a_, ast.IfExp)]
+                # (only for delegation to the parent class -- `super().extend(...)`, `list.extend(self, ...)` -- where the rules ask
+                # under which test the data is handed on; elsewhere a conditional argument stays one call)
                 if len(cond) == 1 and all(_simple_arg(a_) or isinstance(a_, ast.Constant) for a_ in c_.args if a_ is not cond[0]) \
-                        and (isinstance(c_.func, ast.Name) or (isinstance(c_.func, ast.Attribute) and (
-                            _plain_chain(c_.func.value) or (isinstance(c_.func.value, ast.Call) and isinstance(c_.func.value.func, ast.Name)
-                                                            and c_.func.value.func.id == "super")))):
+                        and isinstance(c_.func, ast.Attribute) and (
+                            (isinstance(c_.func.value, ast.Call) and isinstance(c_.func.value.func, ast.Name) and c_.func.value.func.id == "super")
+                            or (isinstance(c_.func.value, ast.Name) and c_.func.value.id in ("list", "dict", "set"))):
                     def arm_stmt(e_, st=st, c_=c_, cond=cond):
                         ns = copy.deepcopy(st)
                         idx = c_.args.index(cond[0])
@@ -2878,10 +2885,11 @@ def normalize_module_trees(modules: Dict[str, ast.Module]) -> List[str]:
                             if nm in _BUILTIN_METHOD_NAMES:
                                 return None     # `keys.add(k)` on a builtin set is not the `add` a new proxy class defines
                             owners = method_owner.get(nm) or []
-                            if len(owners) != 1:
+                            alldefs = [n for o in owners for n in class_defs[o].body if isinstance(n, ast.FunctionDef) and n.name == nm]
+                            # one definition -- copies of it made when methods were copied down into subclasses do not count
+                            if len({getattr(n, "_origin", id(n)) for n in alldefs}) != 1:
                                 return None
-                            oc = class_defs[owners[0]]
-                            d = [n for n in oc.body if isinstance(n, ast.FunctionDef) and n.name == nm]
+                            d = [n for n in alldefs if not hasattr(n, "_pushed_from")] or alldefs[:1]
                             if not d or d[0] is fn or not _inlinable_def(d[0]) or _calls(d[0], nm):
                                 return None
                             decos = [ast.unparse(x) for x in d[0].decorator_list]
@@ -3154,12 +3162,26 @@ def normalize_module_trees(modules: Dict[str, ast.Module]) -> List[str]:
                 elif isinstance(n, ast.Name):
                     referenced.add(n.id)
 
+        exported: Set[str] = set()
+        for mn_, m_ in modules.items():
+            is_init = any(o.startswith(mn_ + ".") for o in modules)
+            for n_ in ast.walk(m_):
+                if is_init and isinstance(n_, ast.ImportFrom):
+                    exported |= {a_.asname or a_.name for a_ in n_.names}
+                if isinstance(n_, (ast.Assign, ast.AugAssign)) and any(isinstance(t_, ast.Name) and t_.id == "__all__"
+                                                                       for t_ in (n_.targets if isinstance(n_, ast.Assign) else [n_.target])):
+                    exported |= {c_.value for c_ in ast.walk(n_.value) if isinstance(c_, ast.Constant) and isinstance(c_.value, str)}
+
         def prune(body, is_closure_scope):
             for st in list(body):
                 if isinstance(st, (ast.FunctionDef, ast.AsyncFunctionDef)):
-                    cand = is_closure_scope or private(st.name)
+                    # (a new public name that the package exports -- imported by an __init__, listed in __all__ -- stays an entry point)
+                    cand = is_closure_scope or (private(st.name) and (st.name.startswith("_") or st.name not in exported))
                     # (a definition that was expanded earlier may have outgrown the size limit through its own inlined calls)
-                    if cand and st.name not in referenced and st.name not in KEEP and (_inlinable_def(st) or id(st) in _INLINED_DEFS):
+                    # -- and only one that *was* expanded somewhere: a new public function nobody in the package calls (a new
+                    # support helper exported from __init__) is an entry point, not dead code
+                    if cand and st.name not in referenced and st.name not in KEEP and (
+                            id(st) in _INLINED_DEFS or getattr(st, "_origin", None) in _INLINED_DEFS):
                         body.remove(st)
                         log.append("removed fully inlined definition %s" % st.name)
                         continue
